@@ -278,6 +278,10 @@ class Check:
     def nontrivial(self, case, obs):
         return None
 
+    def replay_extra(self, case):
+        """replay one case of an additional part: -> (impl_obs, model_obs, failed_on_model, failed_on_impl) or None"""
+        return None
+
     def extra_checks(self, tier, rng, report):
         """hook for checks that do not fit the case/obs scheme (real sockets, etc.)"""
         return
@@ -586,6 +590,27 @@ class Check:
             print("build ok" if build.ok else f"build broken: {build.broken}")
             return 0 if build.ok else 1
         case = _unpickle_b64(doc["case_pickle"])
+        if isinstance(case, dict) and case.get("_extra"):
+            # a case of one of the check's additional parts (extra_checks): the part replays it itself, or, where it
+            # has no single-case replay, the whole quick check is run again (same verdict rules)
+            r = self.replay_extra(case)
+            if r is None:
+                print(f"replay {path}: this case belongs to a part of the check without a single-case replay; "
+                      f"running the quick check again")
+                return self._main(["--tier", "quick"])
+            (o, m, fm, fi) = r
+            print("case      :", json.dumps(_jsonable(case), default=repr))
+            print("impl obs  :", _jsonable(o))
+            print("model obs :", _jsonable(m))
+            print("failed clauses on implementation:", fi)
+            print("failed clauses on model         :", fm)
+            if fi:
+                print(f"VIOLATION property={self.ident} replay={path}")
+                return 1
+            if _jsonable(o) != _jsonable(m):
+                print(f"VIOLATION property={self.ident} replay={path} no-failing-input-found")
+                return 1
+            return 0
         (c, o, m, fm, fi, rest_), = self.evaluate([case])
         print("case      :", json.dumps(self.show(c), default=repr))
         print("impl obs  :", _jsonable(self.canon(o)))
